@@ -326,6 +326,26 @@ def p_product(kind, thorough=False, H=8, timeout=150):
     return obs
 
 
+def split_param(obs, name, only_if=None):
+    """Case-split every obligation that has the symbolic parameter `name` into one cube per value (parallelism)."""
+    out = []
+    for ob in obs:
+        hit = [q for q in ob["params"] if q[0] == name]
+        if not hit or (only_if and not only_if(ob)):
+            out.append(ob)
+            continue
+        _, lo, hi = hit[0]
+        for v in range(lo, hi + 1):
+            o2 = dict(ob)
+            o2["cube"] = dict(ob["cube"], **{name: v})
+            o2["params"] = [q for q in ob["params"] if q[0] != name]
+            o2["name"] = "%s/%s=%d" % (ob["name"], name, v)
+            if ob.get("pre"):
+                o2["pre"] = ob["pre"].replace(name, "(%d)" % v) if name in ob["pre"] else ob["pre"]
+            out.append(o2)
+    return out
+
+
 def obligations_for(prop, tier):
     import os
 
@@ -387,7 +407,7 @@ def _obligations_for(prop, tier):
             obs.append(ob)
         return obs
     if prop == "C07":
-        return p_cost(thorough, timeout=900 if thorough else 150) + p_facility(thorough, timeout=900 if thorough else 150)[:8]
+        return split_param(split_param(p_cost(thorough, timeout=900 if thorough else 150), "pa0"), "a0") + p_facility(thorough, timeout=900 if thorough else 150)[:8]
     if prop == "C10":
-        return p_absence(wmax=3 if thorough else 2, H=12 if thorough else 8, timeout=900 if thorough else 200) + p_cost(thorough, timeout=900 if thorough else 150)
+        return split_param(p_absence(wmax=3 if thorough else 2, H=12 if thorough else 8, timeout=900 if thorough else 200), "pa0") + split_param(p_cost(thorough, timeout=900 if thorough else 150), "pa0")
     raise KeyError(prop)
